@@ -64,7 +64,7 @@ func framePool(idx uint64) (frame []byte, label string) {
 	k := idx - uint64(len(intact))
 	rng := lib.NewRand("C10.pool", k)
 	ft := lib.FileTypes[k%uint64(len(lib.FileTypes))].Type
-	o := lib.GenOpts{FileType: ft, Mesgs: lib.HostedMesgs(ft), Locals: 1 + rng.Intn(3), Redefine: 5, BigEndian: 50, Unknown: 20, Compressed: 10, NoTimeZero: true, MaxFields: 6}
+	o := lib.GenOpts{FileType: ft, Mesgs: lib.HostedMesgs(ft), Locals: 1 + rng.Intn(3), Redefine: 5, BigEndian: 50, Unknown: 20, Compressed: 10, NoTimeZero: true, MaxFields: 6, BigFileId: 15}
 	switch k % 6 {
 	case 0: // nothing after file_id
 		o.Records = 0
@@ -189,6 +189,10 @@ func c10Frame(c *lib.Ctx, idx uint64) {
 				c.Violation(frame, "Decode of %s depends on read chunking (%s): %s", label, ch, lib.DiffsString(diffs, 3))
 				return
 			}
+		}
+		if (ep == "DecodeHeader" || ep == "DecodeHeaderAndFileID") && res.Err != nil && base["Decode"].Err == nil {
+			c.Violation(frame, "%s fails on %s (%v) although Decode accepts the file: it cannot report the header and file_id Decode reports", ep, label, res.Err)
+			return
 		}
 		if (ep == "DecodeHeader" || ep == "DecodeHeaderAndFileID") && res.Err == nil && base["Decode"].Err == nil {
 			df := base["Decode"].File
